@@ -215,6 +215,27 @@ func entries() []entry {
 			err := ch.Handle(h)
 			return d.Bytes(), err
 		}},
+		{"HandlePing/HandlePong/HandleClose-direct", func(c ctlCase) ([]byte, error) {
+			// the per-opcode methods, called directly (masked source as in Handle/masked-src)
+			d := env.NewDst()
+			h := ws.Header{Fin: true, OpCode: ws.OpCode(c.op), Length: int64(len(c.payload))}
+			wire := c.payload
+			if c.side == streams.Server {
+				h.Masked, h.Mask = true, srcMask
+				wire = refmodel.XOR(c.payload, srcMask, 0)
+			}
+			ch := wsutil.ControlHandler{Src: bytes.NewReader(wire), Dst: d, State: c.st()}
+			var err error
+			switch c.op {
+			case 9:
+				err = ch.HandlePing(h)
+			case 10:
+				err = ch.HandlePong(h)
+			default:
+				err = ch.HandleClose(h)
+			}
+			return d.Bytes(), err
+		}},
 		{"HandleControlMessage", func(c ctlCase) ([]byte, error) {
 			d := env.NewDst()
 			err := wsutil.HandleControlMessage(d, c.st(), wsutil.Message{OpCode: ws.OpCode(c.op), Payload: c.payload})
@@ -341,7 +362,7 @@ func main() {
 
 		r.Part("E2-all-close-codes", func(t *explore.T) {
 			reasons := [][]byte{{}, []byte("bye"), {0xff, 0xfe}, bytes.Repeat([]byte{'z'}, 123)}
-			quickEntries := []entry{es[0], es[1], es[3], es[7]}
+			quickEntries := []entry{es[0], es[1], es[3], es[4], es[8]}
 			if t.Thorough() {
 				quickEntries = es
 			}
